@@ -1964,6 +1964,27 @@ foamToSExpr(Foam foam)
 
 #define croak(sx, msg)	comsgFatal(abNewNothing(sxiPos(sx)), msg)
 
+/*
+ * The value of an integer S-expression as a machine integer.  The reader
+ * builds a big integer, and bintSmall is only right for an immediate one
+ * (up to 62 bits): wider values are converted bit by bit.
+ */
+local AInt
+foamSExprToAInt(SExpr sxi)
+{
+	BInt	b = sxiToTheBigInteger(sxi);
+	ULong	n = 0;
+	int	i;
+
+	if (bintIsSmall(b)) return bintSmall(b);
+
+	for (i = bitsizeof(AInt) - 1; i >= 0; i--) {
+		n <<= 1;
+		if (bintBit(b, i)) n |= 1;
+	}
+	return bintIsNeg(b) ? (AInt) (0 - n) : (AInt) n;
+}
+
 Foam
 foamFrSExpr(SExpr sx)
 {
@@ -2009,7 +2030,7 @@ foamFrSExpr(SExpr sx)
 		case 'w':
 		case 'i':
 			if (!sxiIntegerP(sxi)) croak(sxi, ALDOR_F_LoadNotInteger);
-			foamArgv(foam)[si].data = sxiToInteger(sxi);
+			foamArgv(foam)[si].data = foamSExprToAInt(sxi);
 			break;
 		case 't':
 		case 'o':
